@@ -75,3 +75,31 @@ func init() {
 	RegisterGen("C04", genEscLongParse)
 	RegisterGen("C02", genEscLongChunk)
 }
+
+// genJsonReuseNumbers: one json.Parser, Parse called for document after document — a bare
+// top-level number (ended only by the end of the input: reported by finalize) with / without
+// fraction or exponent, then documents whose numbers are integers beyond 2^53 or floats: how a
+// number is classified must not depend on what the parser read before (C04: no number is ever
+// reported as a different number; C17)
+func genJsonReuseNumbers(r *Rand, tier string, emit func(string)) {
+	firsts := []string{"1.5", "-2e3", "0.25", "1E5", "12", "-7", "0", "1e-2 ", "3.0 "}
+	mids := []string{"", "{}", "[]", "null ", "\"s\""}
+	probes := []string{"[9007199254740993,2]", "18446744073709551615", "{\"a\":-9223372036854775808}", "[1,2.5,3]", "9007199254740993 ", "[1e2,100]", "{\"k\":[18446744073709551615,1.0]}"}
+	for _, a := range firsts {
+		for _, m := range mids {
+			for _, p := range probes {
+				docs := []string{hx([]byte(a))}
+				if m != "" {
+					docs = append(docs, hx([]byte(m)))
+				}
+				docs = append(docs, hx([]byte(p)))
+				emit("reuse-parse json P " + strings.Join(docs, ";"))
+			}
+		}
+	}
+}
+
+func init() {
+	RegisterGen("C04", genJsonReuseNumbers)
+	RegisterGen("C17", genJsonReuseNumbers)
+}
